@@ -909,9 +909,7 @@ class World:
         N = self.inj.count
         base_obs = observe_design(base)
         del base
-        ks = op.get("ks") or list(range(1 + op.get("offset", 0) % max(1, op.get("stride", 7)), N + 1,
-                                        op.get("stride", 7)))
-        ks = ks[: op.get("max_points", 400)]
+        ks = op.get("ks") or _points(N, op)
         flavours = op.get("flavours") or ["base", "exc"]
         points = 0
         for j, k in enumerate(ks):
@@ -1033,8 +1031,7 @@ class World:
         if "baseline_raise" in base or "obs" not in base:
             return {"op": "sweep_coldproc", "outcome": "baseline-raise", "sd": base.get("baseline_raise", "?")}
         N = base["n"]
-        ks = op.get("ks") or list(range(1 + op.get("offset", 0) % max(1, op.get("stride", 7)), N + 1,
-                                        op.get("stride", 7)))[: op.get("max_points", 150)]
+        ks = op.get("ks") or _points(N, op)
         flavours = op.get("flavours") or ["base", "exc"]
         points = 0
         for j, k in enumerate(ks):
@@ -1116,7 +1113,8 @@ def _points(n_events, op):
     cap = op.get("max_points")
     if cap and n_events // stride > cap:
         stride = -(-n_events // cap)
-    return list(range(1, n_events + 1, stride))
+    # the points are spread over the WHOLE operation (never a prefix of it); the offset varies per scenario
+    return list(range(1 + op.get("offset", 0) % stride, n_events + 1, stride))
 
 
 def run_scenario(scenario, oracles=None, ref=None, suppress=None, dump=False):
